@@ -6,7 +6,7 @@
 From Coq Require Import String.
 From Coq Require Import List NArith Bool Arith Lia.
 From VF Require Import Base.Sx FileH.Str FileH.Unquote FileH.UnquoteProofs FileH.PosixPath FileH.Handler FileH.Spec
-  FileH.PosixPathProofs FileH.TranslateProofs C04.Entry C04.EntryProofs.
+  FileH.PosixPathProofs FileH.MatchProofs FileH.TranslateProofs C04.Entry C04.EntryProofs.
 Import ListNotations.
 Open Scope N_scope.
 
@@ -54,6 +54,37 @@ Theorem C04_unquote_no_ascii_from_high_bytes : forall s,
   filter asc (unquote s) = filter asc (map item_val (items s)).
 Proof. exact unquote_ascii. Qed.
 Print Assumptions C04_unquote_no_ascii_from_high_bytes.
+
+(* the remaining answers of open(): PermissionError for a directory -> not found; PermissionError otherwise ->
+   forbidden; any other OSError (EIO, ELOOP, ...) is the result of the request *)
+Theorem C04_open_errors : forall T FS GD fs_open old c r x log p res,
+  handle old T FS GD fs_open c r x = (log, [p], res) ->
+  (fs_open p = FsEACCES_DIR -> res = RNotFound) /\
+  (fs_open p = FsEACCES -> res = RForbidden) /\
+  (fs_open p = FsEOTHER -> res = RError).
+Proof. exact open_errors. Qed.
+Print Assumptions C04_open_errors.
+
+(* the three "extra sure" returns of _translate_path are dead code behind _prepare_context:
+   (1) the extra path of an accepted request never contains NUL; *)
+Theorem C04_nul_recheck_dead : forall c r uri e, init_request_path c = Ok r ->
+  matches (prepare_context c r uri) = true -> extra_path (prepare_context c r uri) = Some e ->
+  mem_N 0 e = false.
+Proof. intros c r uri e H. apply extra_path_no_nul. exact (init_wf c r H). Qed.
+Print Assumptions C04_nul_recheck_dead.
+
+(* (2) after the empty / trailing-slash test there is always a segment left; *)
+Theorem C04_segments_never_empty : forall e : str, e <> [] -> ends_with [SL] e = false ->
+  drop_empty (split_on SL e) <> [].
+Proof. exact segments_never_empty. Qed.
+Print Assumptions C04_segments_never_empty.
+
+(* (3) the final startswith(root_dir) test accepts every named file (for a normalised root it never rejects:
+   C04_translate_path_spec says _translate_path returns exactly the named file). *)
+Theorem C04_prefix_check_never_rejects : forall c e p,
+  spec_path c e = Some p -> starts_with (c_target c) p = true.
+Proof. exact prefix_check_never_rejects. Qed.
+Print Assumptions C04_prefix_check_never_rejects.
 
 (* the executable checker used on the implementation's observations accepts the model *)
 Theorem C04_holds : forall k, valid k -> holds k (run_model k) = [].
